@@ -251,13 +251,12 @@ func freshVal(t types.Type, name string, facts *[]*Term) *Val {
 		return v
 	case KSlice:
 		v := &Val{K: KSlice, T: t, X: Fresh(name+"#arr", SInt), Off: Fresh(name+"#off", SInt), Len: Fresh(name+"#len", SInt), Cap: Fresh(name+"#cap", SInt)}
-		*facts = append(*facts, Le(Num(0), v.Off), Le(Num(0), v.Len), Le(v.Len, v.Cap), Le(v.Cap, Pow2(62)), Le(v.Off, Pow2(62)), Le(Num(0), v.X),
+		*facts = append(*facts, Le(Num(0), v.Off), Le(Num(0), v.Len), Le(v.Len, v.Cap), Le(v.Cap, Pow2(62)), Le(v.Off, Pow2(62)),
 			Implies(Eq(v.X, Num(0)), Eq(v.Cap, Num(0))))
 		return v
 	case KPtr:
+		// references may be negative: package-level constant objects have negative ids
 		x := Fresh(name, SInt)
-		nonNegSyms[x.Name] = true
-		*facts = append(*facts, Le(Num(0), x))
 		return mkPtr(t, x)
 	case KInt:
 		x := Fresh(name, SInt)
@@ -266,9 +265,6 @@ func freshVal(t types.Type, name string, facts *[]*Term) *Val {
 		return &Val{K: KInt, T: t, X: x}
 	case KIface, KMap, KFunc, KOpaque:
 		x := Fresh(name, SInt)
-		if kindOf(t) != KOpaque {
-			*facts = append(*facts, Le(Num(0), x))
-		}
 		return &Val{K: kindOf(t), T: t, X: x}
 	case KArr:
 		x := Fresh(name, sortOf(t))
@@ -687,19 +683,19 @@ func (s *State) loadAt(root, path string, ref, idx *Term, t types.Type) *Val {
 	case *types.Slice:
 		v := &Val{K: KSlice, T: t, X: rd(path+"#arr", types.Typ[types.Int]), Off: rd(path+"#off", types.Typ[types.Int]), Len: rd(path+"#len", types.Typ[types.Int]), Cap: rd(path+"#cap", types.Typ[types.Int])}
 		if v.Len.Op == "select" {
-			addTypeFact(And(Le(Num(0), v.X), Le(Num(0), v.Off), Le(Num(0), v.Len), Le(v.Len, v.Cap), Le(v.Cap, Pow2(62)), Le(v.Off, Pow2(62)), Implies(Eq(v.X, Num(0)), Eq(v.Cap, Num(0)))))
+			addTypeFact(And(Lt(v.X, s.Alloc), Le(Num(0), v.Off), Le(Num(0), v.Len), Le(v.Len, v.Cap), Le(v.Cap, Pow2(62)), Le(v.Off, Pow2(62)), Implies(Eq(v.X, Num(0)), Eq(v.Cap, Num(0)))))
 		}
 		return v
 	case *types.Pointer:
 		x := rd(path, t)
 		if x.Op == "select" {
-			addTypeFact(Le(Num(0), x))
+			addTypeFact(Lt(x, s.Alloc)) // the heap holds references to allocated objects only
 		}
 		return mkPtr(t, x)
 	case *types.Interface, *types.Map:
 		x := rd(path, t)
 		if x.Op == "select" {
-			addTypeFact(Le(Num(0), x))
+			addTypeFact(Lt(x, s.Alloc))
 		}
 		return &Val{K: kindOf(t), T: t, X: x}
 	}
